@@ -1138,8 +1138,13 @@ func genInterfaceWrapper(n *node, typ reflect.Type) func(*frame) reflect.Value {
 			return v
 		}
 		switch v.Kind() {
-		case reflect.Chan, reflect.Func, reflect.Interface, reflect.Map, reflect.Ptr, reflect.Slice:
+		case reflect.Interface:
 			if v.IsNil() {
+				return reflect.New(typ).Elem()
+			}
+		case reflect.Chan, reflect.Func, reflect.Map, reflect.Ptr, reflect.Slice:
+			// A nil pointer (map, ...) of a type with methods is not a nil interface value.
+			if v.IsNil() && (tc == nilT || len(methods) == 0) {
 				return reflect.New(typ).Elem()
 			}
 		}
